@@ -7,4 +7,10 @@ package lg
 //@ func ParseLogLevel(levelstr string) (LogLevel, error)
 //@   props C17
 //@   ensures[level-or-error] result1 == nil ==> 1 <= result0 && result0 <= 5
+//   (round 5, area J) exact: the level is the one the lower-cased name denotes, anything else is an error with level 0
+//   (r5JToLower: strings.ToLower as an uninterpreted function, lib/trusted/r5J.spec)
+//@   ensures[exact-levels] (r5JToLower(levelstr) == "debug" ==> result0 == 1 && result1 == nil) && (r5JToLower(levelstr) == "info" ==> result0 == 2 && result1 == nil) &&
+//@        (r5JToLower(levelstr) == "warn" ==> result0 == 3 && result1 == nil) && (r5JToLower(levelstr) == "error" ==> result0 == 4 && result1 == nil) &&
+//@        (r5JToLower(levelstr) == "fatal" ==> result0 == 5 && result1 == nil)
+//@   ensures[unknown-name-refused] r5JToLower(levelstr) != "debug" && r5JToLower(levelstr) != "info" && r5JToLower(levelstr) != "warn" && r5JToLower(levelstr) != "error" && r5JToLower(levelstr) != "fatal" ==> result0 == 0 && result1 != nil
 //@   modifies
